@@ -168,6 +168,16 @@ Definition post_trace (c : cfg) (t : task) (cp : cpd) : list cpd :=
   let t3 := if c_CL c <=? t_new t then prune_first (t_new t - c_CL c) cp2 else [] in
   t1 ++ t2 ++ t3.
 
+(* finishCatchpointsAfterCrash: delete the unfinished catchpoint file, then finishCatchpoint *)
+Fixpoint recover_catchpoints (c : cfg) (rs : list nat) (L : nat) (cp : cpd) : list cpd :=
+  match rs with
+  | [] => []
+  | r :: tl =>
+      let cp0 := set_files (rm_file r (cp_files cp)) cp in
+      let t := cp0 :: finish_catchpoint c r L cp0 in
+      t ++ recover_catchpoints c tl L (last_cp t cp)
+  end.
+
 (* catchpointTracker.recoverFromCrash(dbRound) *)
 Definition recover_trace (c : cfg) (dbr : nat) (cp : cpd) : list cpd :=
   let t1 := if cp_flag cp
@@ -176,14 +186,7 @@ Definition recover_trace (c : cfg) (dbr : nat) (cp : cpd) : list cpd :=
   let cp1 := last_cp t1 cp in
   let L := cp_lookback cp1 in
   if L =? 0 then t1 else
-  let t2 := (fix go (rs : list nat) (cp : cpd) : list cpd :=
-               match rs with
-               | [] => []
-               | r :: tl =>
-                   let cp0 := set_files (rm_file r (cp_files cp)) cp in
-                   let t := cp0 :: finish_catchpoint c r L cp0 in
-                   t ++ go tl (last_cp t cp)
-               end) (cp_unfinished cp1) cp1 in
+  let t2 := recover_catchpoints c (cp_unfinished cp1) L cp1 in
   let cp2 := last_cp t2 cp1 in
   let t3 := if L <=? dbr then prune_first (dbr - L) cp2 else [] in
   t1 ++ t2 ++ t3.
